@@ -19,6 +19,7 @@ pub fn push_hex(o: &mut String, b: &[u8]) {
 }
 
 /// `H` convention: lowercase hex, `-` for the empty string
+#[cfg_attr(not(feature = "serialize"), allow(dead_code))]
 pub fn push_hex_h(o: &mut String, b: &[u8]) {
     if b.is_empty() {
         o.push('-');
@@ -673,54 +674,39 @@ impl<'a> R for DTLSMessageHandshakeBody<'a> {
     }
 }
 
+fn r_dtls_inner(m: &DTLSMessage, c: &mut Ctx, o: &mut String) {
+    match m {
+        DTLSMessage::Handshake(h) => ctor!(
+            c,
+            o,
+            "Hs",
+            h.msg_type,
+            h.length,
+            h.message_seq,
+            h.fragment_offset,
+            h.fragment_length,
+            h.body
+        ),
+        DTLSMessage::ChangeCipherSpec => o.push_str("CCS"),
+        DTLSMessage::Alert(a) => r_alert(a, c, o),
+        DTLSMessage::ApplicationData(a) => r_app(a, c, o),
+        DTLSMessage::Heartbeat(h) => r_hb(h, c, o),
+    }
+}
+
+/// A DTLS message is always printed wrapped: `(M <is_fragment 0|1> msg)`
 impl<'a> R for DTLSMessage<'a> {
     fn r(&self, c: &mut Ctx, o: &mut String) {
-        match self {
-            DTLSMessage::Handshake(h) => ctor!(
-                c,
-                o,
-                "Hs",
-                h.msg_type,
-                h.length,
-                h.message_seq,
-                h.fragment_offset,
-                h.fragment_length,
-                h.body
-            ),
-            DTLSMessage::ChangeCipherSpec => o.push_str("CCS"),
-            DTLSMessage::Alert(a) => r_alert(a, c, o),
-            DTLSMessage::ApplicationData(a) => r_app(a, c, o),
-            DTLSMessage::Heartbeat(h) => r_hb(h, c, o),
-        }
+        o.push_str("(M ");
+        o.push(if self.is_fragment() { '1' } else { '0' });
+        o.push(' ');
+        r_dtls_inner(self, c, o);
+        o.push(')');
     }
-}
-
-/// `(M <is_fragment 0|1> msg)`
-pub fn r_dtls_wrapped(m: &DTLSMessage, c: &mut Ctx, o: &mut String) {
-    o.push_str("(M ");
-    o.push(if m.is_fragment() { '1' } else { '0' });
-    o.push(' ');
-    m.r(c, o);
-    o.push(')');
-}
-
-pub fn r_dtls_wrapped_list(v: &Vec<DTLSMessage>, c: &mut Ctx, o: &mut String) {
-    o.push('[');
-    for (n, m) in v.iter().enumerate() {
-        if n > 0 {
-            o.push(' ');
-        }
-        r_dtls_wrapped(m, c, o);
-    }
-    o.push(']');
 }
 
 impl<'a> R for DTLSPlaintext<'a> {
     fn r(&self, c: &mut Ctx, o: &mut String) {
-        o.push_str("(DPlain ");
-        self.header.r(c, o);
-        o.push(' ');
-        r_dtls_wrapped_list(&self.messages, c, o);
-        o.push(')');
+        ctor!(c, o, "DPlain", self.header, self.messages);
     }
 }
